@@ -6,6 +6,7 @@ package oracles
 import (
 	"reflect"
 	"sync"
+	"sync/atomic"
 	"time"
 	"unsafe"
 
@@ -48,4 +49,69 @@ func VerifSetLocalHook(oc oracle.Oracle, t time.Time) {
 		o.hook = &struct{ currentTime time.Time }{}
 	}
 	o.hook.currentTime = t
+}
+
+// VerifNextInterval runs nextUpdateInterval on a bare pdOracle whose interval record is given.
+func VerifNextInterval(cfg, ada, lastShortMs, lastTickNs int64, state int, nowNs, req int64) (ret, adaAfter int64, stateAfter int) {
+	o := &pdOracle{}
+	o.lastTSUpdateInterval.Store(cfg)
+	o.adaptiveLastTSUpdateInterval.Store(ada)
+	o.adaptiveUpdateIntervalState.lastShortStalenessReadTime.Store(lastShortMs)
+	o.adaptiveUpdateIntervalState.lastTick = time.Unix(0, lastTickNs)
+	o.adaptiveUpdateIntervalState.state = adaptiveUpdateTSIntervalState(state)
+	r := o.nextUpdateInterval(time.Unix(0, nowNs), time.Duration(req))
+	return int64(r), o.adaptiveLastTSUpdateInterval.Load(), int(o.adaptiveUpdateIntervalState.state)
+}
+
+// VerifSetInterval runs SetLowResolutionTimestampUpdateInterval on a bare record.
+func VerifSetInterval(cfg, ada, nw int64) (ok bool, cfgAfter, adaAfter int64) {
+	o := &pdOracle{}
+	o.lastTSUpdateInterval.Store(cfg)
+	o.adaptiveLastTSUpdateInterval.Store(ada)
+	err := o.SetLowResolutionTimestampUpdateInterval(time.Duration(nw))
+	return err == nil, o.lastTSUpdateInterval.Load(), o.adaptiveLastTSUpdateInterval.Load()
+}
+
+// VerifAdjust runs adjustUpdateLowResolutionTSIntervalWithRequestedStaleness; sent = 0 when nothing was sent.
+func VerifAdjust(cfg, ada, lastShortMs int64, read, cur uint64, nowNs int64) (lastShortAfter, sent int64) {
+	o := &pdOracle{}
+	o.adaptiveUpdateIntervalState.shrinkIntervalCh = make(chan time.Duration, 1)
+	o.lastTSUpdateInterval.Store(cfg)
+	o.adaptiveLastTSUpdateInterval.Store(ada)
+	o.adaptiveUpdateIntervalState.lastShortStalenessReadTime.Store(lastShortMs)
+	o.adjustUpdateLowResolutionTSIntervalWithRequestedStaleness(read, cur, time.Unix(0, nowNs))
+	select {
+	case d := <-o.adaptiveUpdateIntervalState.shrinkIntervalCh:
+		sent = int64(d)
+	default:
+	}
+	return o.adaptiveUpdateIntervalState.lastShortStalenessReadTime.Load(), sent
+}
+
+// VerifStale runs getStaleTimestampWithLastTS on a record whose arrival lies offNs before now; the clock
+// readings taken right before and after the call bracket the time.Now() inside.
+func VerifStale(tso uint64, offNs int64, prev uint64) (ts uint64, err error, before, arr, after int64) {
+	o := &pdOracle{}
+	arr = time.Now().UnixNano() - offNs
+	last := &lastTSO{tso: tso, arrival: time.Unix(0, arr)}
+	before = time.Now().UnixNano()
+	ts, err = o.getStaleTimestampWithLastTS(last, prev)
+	after = time.Now().UnixNano()
+	return
+}
+
+// VerifLastArrival returns the arrival of the published record of a scope.
+func VerifLastArrival(oc oracle.Oracle, scope string) (time.Time, bool) {
+	l, ok := oc.(*pdOracle).getLastTSWithArrivalTS(scope)
+	if !ok {
+		return time.Time{}, false
+	}
+	return l.arrival, true
+}
+
+// VerifStoreLast stores a record with a chosen arrival directly (as export_test.go's SetEmptyPDOracleLastTs does).
+func VerifStoreLast(oc oracle.Oracle, ts uint64, arrival time.Time) {
+	o := oc.(*pdOracle)
+	p, _ := o.lastTSMap.LoadOrStore(oracle.GlobalTxnScope, &atomic.Pointer[lastTSO]{})
+	p.(*atomic.Pointer[lastTSO]).Store(&lastTSO{tso: ts, arrival: arrival})
 }
